@@ -229,6 +229,51 @@ func (t *Task) Log(what string) {
 
 func (t *Task) next() uint64 { t.ctr++; return t.ctr }
 
+// ---------------------------------------------------------------- wake-up slots
+//
+// Two goroutines that become runnable at the same simulated nanosecond are ordered by the Go
+// scheduler, not by the seed.  To keep that from happening between the parties that contend
+// for the system's shared state, every timed wake-up of a task (lock barrier, lock poll,
+// yield, start) and every delivery on a connection is moved up to the next instant of a
+// residue class modulo SlotSpan that belongs to that task / connection alone.
+
+const SlotSpan = 512
+
+// SlotOf maps a task id to its residue class.
+func SlotOf(taskID int) int64 {
+	switch {
+	case taskID < 0:
+		return SlotSpan - 1
+	case taskID < 200:
+		return int64(taskID)
+	case taskID >= 1000000:
+		return 200 + int64(taskID-1000000)%50
+	}
+	return 250 + int64(taskID)%6
+}
+
+// RawSlot is the residue class of a non-Diameter (shared) connection.
+func RawSlot(conn int) int64 { return 256 + int64(conn)%250 }
+
+// AlignAt returns the first instant >= at that lies in the residue class.
+func AlignAt(slot, at int64) int64 {
+	return at + (slot-at%SlotSpan+SlotSpan)%SlotSpan
+}
+
+func (t *Task) sleepAligned(d int64) {
+	now := Now()
+	time.Sleep(time.Duration(AlignAt(SlotOf(t.ID), now+d) - now))
+}
+
+// SleepAligned sleeps at least d and wakes in the calling task's residue class.
+func SleepAligned(d int64) {
+	if t := Current(); t != nil {
+		t.sleepAligned(d)
+		return
+	}
+	time.Sleep(time.Duration(d))
+}
+
 // Sleep sleeps simulated time.
 func Sleep(ns int64) {
 	if ns > 0 {
@@ -273,7 +318,8 @@ func Acquire(try func() bool, block func()) {
 		t.Locks++
 		// Quiescence barrier: a distinct, identity-derived instant per acquisition, so
 		// that which of two contenders comes first is decided by the seed.
-		time.Sleep(time.Duration(2 + Hash(cfg.Seed, 0x10c3, uint64(t.ID), t.next())%97))
+		// (scaled by the slot span so that the seed, not the residue class, decides the order)
+		t.sleepAligned(int64(2+Hash(cfg.Seed, 0x10c3, uint64(t.ID), t.next())%97) * SlotSpan)
 	} else {
 		time.Sleep(time.Duration(1))
 	}
@@ -286,7 +332,11 @@ func Acquire(try func() bool, block func()) {
 		} else {
 			anonPolls.Add(1)
 		}
-		time.Sleep(time.Duration(pollDelay(t, attempt)))
+		if t != nil {
+			t.sleepAligned(pollDelay(t, attempt))
+		} else {
+			time.Sleep(time.Duration(pollDelay(t, attempt)))
+		}
 	}
 }
 
@@ -309,6 +359,10 @@ func LockWait(attempt int) {
 	} else {
 		anonPolls.Add(1)
 	}
+	if t != nil {
+		t.sleepAligned(pollDelay(t, attempt))
+		return
+	}
 	time.Sleep(time.Duration(pollDelay(t, attempt)))
 }
 
@@ -319,7 +373,7 @@ func Barrier() {
 		return
 	}
 	if t := Current(); t != nil {
-		time.Sleep(time.Duration(2 + Hash(cfg.Seed, 0xba44, uint64(t.ID), t.next())%97))
+		t.sleepAligned(int64(2+Hash(cfg.Seed, 0xba44, uint64(t.ID), t.next())%97) * SlotSpan)
 		return
 	}
 	time.Sleep(time.Duration(1))
@@ -374,7 +428,7 @@ func Yield(site uint32) {
 	if max < 1 {
 		max = 1
 	}
-	time.Sleep(time.Duration(1 + (h>>20)%max))
+	t.sleepAligned(int64(1 + (h>>20)%max))
 }
 
 // ---------------------------------------------------------------- disk
